@@ -40,6 +40,8 @@ def main(tier, replay=None):
              "bulk", sample=False)
     camp.run([], [["reset", "cycles %d" % m] for m in ((40, 300) if quick else (10, 40, 300, 3000))], "ownership-cycles", sample=False)
     camp.run([], [["reset", "tuplenull"]], "tuple-with-null-item", sample=False)
+    # heap views (Zip, Slice, Map made with new) as the only reference to their inputs
+    camp.run([], [["reset", "heapviews"]], "heap-views-hold-inputs", sample=False)
     # copy() of an object whose own Assign allocates managed objects: the half-built copy already protects what it holds
     camp.run([], [["reset", "deepcopy %d" % m] for m in (60, 300)], "allocating-assign", sample=False)
     # the only reference lives in a callee-saved register (the roots include the registers, not just the stack)
